@@ -207,3 +207,74 @@ func earlyReturnAfter(in ssa.Instruction) *ssa.Return {
 	}
 	return nil
 }
+
+// guardedUp: every path to target crosses an edge establishing m, where the
+// guard may also have been established by the callers of an unexported helper
+// (the helper is only entered through call sites that are themselves guarded).
+func guardedUp(c *core.Ctx, fn *ssa.Function, target ssa.Instruction, m core.EdgeMatcher) bool {
+	return guardedUpDepth(c, fn, target, m, 0)
+}
+
+func guardedUpDepth(c *core.Ctx, fn *ssa.Function, target ssa.Instruction, m core.EdgeMatcher, depth int) bool {
+	if core.Guarded(fn, target, m) {
+		return true
+	}
+	if depth > 3 || !isPrivateHelper(c, fn) {
+		return false
+	}
+	sites, _ := c.CallSites()
+	ss := sites[fn]
+	if len(ss) == 0 {
+		return false
+	}
+	for _, site := range ss {
+		if c.IsTestFile(site.Parent()) {
+			continue
+		}
+		if _, isGo := site.(*ssa.Go); isGo {
+			return false
+		}
+		if !guardedUpDepth(c, site.Parent(), site.(ssa.Instruction), m, depth+1) {
+			return false
+		}
+	}
+	return true
+}
+
+// isPrivateHelper: an unexported function or method of the repository that is
+// only ever called statically (never stored, never reachable through an
+// interface of the repository).
+func isPrivateHelper(c *core.Ctx, fn *ssa.Function) bool {
+	if fn == nil || fn.Parent() != nil || fn.Object() == nil || fn.Object().Exported() {
+		return false
+	}
+	_, taken := c.CallSites()
+	if taken[fn] {
+		return false
+	}
+	if fn.Signature.Recv() != nil && implementsSomeInterface(c, fn) {
+		return false
+	}
+	return true
+}
+
+// privateCallers returns the functions from which helper fn is (transitively,
+// through private helpers) called; fn itself included.
+func unitOf(c *core.Ctx, root *ssa.Function) []*ssa.Function {
+	out := []*ssa.Function{root}
+	seen := map[*ssa.Function]bool{root: true}
+	for i := 0; i < len(out); i++ {
+		for _, call := range core.Calls(out[i]) {
+			f := core.StaticCallee(call)
+			if f == nil || seen[f] || !isPrivateHelper(c, f) || f.Pkg != root.Pkg {
+				continue
+			}
+			if _, isGo := call.(*ssa.Go); isGo {
+				continue
+			}
+			seen[f] = true
+			out = append(out, f)
+		}
+	}
+	return out
+}
